@@ -301,10 +301,23 @@ def dec_tuple(d):
 
 
 def run_decimal(case):
+    import decimal
     from decimal import Decimal
 
-    d = Decimal(int(case["mant"])).scaleb(int(case["exp"]))
-    assert dec_tuple(d) == [str(int(case["mant"])), int(case["exp"])] or int(case["mant"]) == 0, (dec_tuple(d), case)
+    # built from the digit tuple: exact whatever the context precision (scaleb / arithmetic would round)
+    m = int(case["mant"])
+    d = Decimal((1 if m < 0 else 0, tuple(int(c) for c in str(abs(m))), int(case["exp"])))
+    assert dec_tuple(d) == [str(m), int(case["exp"])] or m == 0, (dec_tuple(d), case)
+    # the ambient decimal context of the process: the default (28 digits) or one the program lowered / raised
+    with decimal.localcontext() as ctx:
+        if case.get("prec"):
+            ctx.prec = int(case["prec"])
+        return _run_decimal(case, d)
+
+
+def _run_decimal(case, d):
+    from decimal import Decimal
+
     res, vals = channels(Decimal, d)
     x = float(d)
     if x in (float("inf"), float("-inf")):
@@ -348,14 +361,38 @@ def run_builtin(case):
     return res
 
 
+RE_FLAGS = {"I": "IGNORECASE", "M": "MULTILINE", "S": "DOTALL", "X": "VERBOSE"}
+
+
+def _compile(regex, flags):
+    import re
+
+    bits = 0
+    for f in flags:
+        bits |= getattr(re, RE_FLAGS[f])
+    return re.compile(regex, bits)
+
+
 def run_rstr(case):
-    key = ("rstr", case["regex"])
+    import re
+
+    flags = case.get("flags", "")
+    key = ("rstr", case["regex"], flags)
     if key not in _types:
         from jsonargparse.typing import registered_types
 
-        rk = ("matching " + case["regex"], str)
-        _types[key] = registered_types[rk] if rk in registered_types else restricted_string_type(
-            "C20S%d" % len(_types), case["regex"])
+        # a type already registered for this pattern text (the predefined NotEmptyStr / Email): whatever else the
+        # register key holds, its first component is "matching <text>" and its last is str
+        known = [t for k, t in registered_types.items()
+                 if isinstance(k, tuple) and k and k[0] == "matching " + case["regex"] and k[-1] is str]
+        if known and "predefined" in case:
+            _types[key] = known[0]
+        else:
+            regex = case["regex"]
+            if flags or case.get("compiled"):  # handed over as a compiled Pattern (Union[str, Pattern]) with its flags
+                regex = _compile(regex, flags)
+            name = known[0].__name__ if known and not flags else "C20S%d" % len(_types)
+            _types[key] = restricted_string_type(name, regex)
     T = _types[key]
     v = dec_pv(case["value"])
     try:
@@ -371,9 +408,36 @@ def run_rstr(case):
     return {"acc": str(r), "extras_ok": bool(ok)}
 
 
+_hist = {}
+
+
+def run_rstrhist(case):
+    """A registry history: one pattern text, first registered as type A with flags1, then handed to
+    restricted_string_type again with flags2 under the same or another name; the type the second call
+    returns (if any) is asked about the value."""
+    key = (case["regex"], case["flags1"], case["flags2"], case["same_name"])
+    if key not in _hist:
+        n = len(_hist)
+        restricted_string_type("C20H%dA" % n, _compile(case["regex"], case["flags1"]))
+        try:
+            _hist[key] = restricted_string_type("C20H%d%s" % (n, "A" if case["same_name"] else "B"),
+                                                _compile(case["regex"], case["flags2"]))
+        except ValueError:
+            _hist[key] = None
+    T = _hist[key]
+    if T is None:
+        return {"created": False, "acc": None}
+    v = dec_pv(case["value"])
+    try:
+        r = T(v)
+    except Exception as e:
+        return {"created": True, "acc": None, "exc": type(e).__name__}
+    return {"created": True, "acc": str(r)}
+
+
 RUN = {
     "num": run_num, "numparse": run_numparse, "range": run_range, "rangedes": run_rangedes, "td": run_td,
-    "tddes": run_tddes, "secret": run_secret, "decimal": run_decimal, "builtin": run_builtin, "rstr": run_rstr,
+    "tddes": run_tddes, "secret": run_secret, "decimal": run_decimal, "builtin": run_builtin, "rstr": run_rstr, "rstrhist": run_rstrhist,
 }
 
 cases = json.load(sys.stdin)["cases"]
